@@ -633,26 +633,91 @@ def c17(ctx):
     ctx.floor("estimator types analysed for signs/ranges", n, 10)
 
 
+TB = ("Trusted: rustc name resolution, type check, const evaluation and MIR construction (the driver only serialises them); "
+      "the library summaries in analysis/summaries.py (DESIGN.md section 3.4); the IEEE-754 identities of DESIGN.md section 2.3; ")
+TECH = "static analysis: abstract interpretation of /repo's MIR (partial evaluation over abstract data) + "
+
 PROPS = {
-    "C08": {"run": c08, "level": "other", "explanation": "weighted mean"},
-    "C09": {"run": c09, "level": "other", "explanation": "covariance"},
-    "C17": {"run": c17, "level": "other", "explanation": "signs and ranges"},
-    "C10": {"run": c10, "level": "other", "explanation": "sample statistics"},
-    "C03": {"run": c03, "level": "other", "explanation": "skewness/kurtosis"},
-    "C04": {"run": c04, "level": "other", "explanation": "define_moments"},
-    "C18": {"run": c18, "level": "other", "explanation": "serde structure"},
-    "C19": {"run": c19, "level": "other", "explanation": "rayon wiring"},
-    "C20": {"run": c20, "level": "proof", "explanation": "ingestion"},
-    "C14": {"run": c14, "level": "proof", "explanation": "minmax"},
-    "C06": {"run": c06, "level": "other", "explanation": "find/add"},
-    "C12": {"run": c12, "level": "other", "explanation": "construction"},
-    "C13": {"run": c13, "level": "proof", "explanation": "merge/views"},
-    "C05": {"run": c05, "level": "other", "explanation": "P2 step"},
-    "C07": {"run": c07, "level": "other", "explanation": "small sample"},
-    "C15": {"run": c15, "level": "other", "explanation": "bookkeeping"},
-    "C11": {"run": c11, "level": "proof", "explanation": "merge identity"},
-    "C16": {"run": c16, "level": "proof", "explanation": "sentinel table"},
-    "C02": {"run": c02, "level": "other", "explanation": "merge laws"},
-    "C01": {"run": c01, "level": "other",
-            "explanation": "Decides the structural clauses of C01 (count discipline, ...); the forward-error envelope is not decided."},
+    "C01": {"run": c01, "level": "other", "design_ref": "DESIGN.md 5 C01",
+            "technique": TECH + "count/dimension/sign/shift-degree domains, exact rational identity testing of add/merge laws and of the definitions on abstract streams",
+            "explanation": "Decides: len() exact on every path (R-COUNT); scale homogeneity of every update and accessor (R-DIM); divisors provably non-zero (R-DIV); sums of squares only grow by non-negative terms (R-SIGN); no intermediate carries the common offset to a power > 1, i.e. no sum-of-squares cancellation (R-SHIFT); over the reals: add commutes, merge(S, singleton) = add, merge commutes/associates, accessor relations, and mean/variances equal their definitions on every abstract stream of length <= 4 (6 thorough) (R-LAW). Not decided: the forward-error envelope C*n*kappa*2^-53 itself.",
+            "level_text": "Structural necessary conditions of C01 decided for all inputs (abstract data): count discipline, dimensional homogeneity, defined arithmetic, non-negative accumulation, offset-degree <= 1 of every intermediate (the structural reason the error is linear in kappa), and real-arithmetic identities between the crate's own operations and the statistics' definitions. The numeric envelope is not established by any static argument in reach.",
+            "level_note": TB + "input domain of C01 (finite values); u64 counters do not wrap."},
+    "C02": {"run": c02, "level": "other", "design_ref": "DESIGN.md 5 C02",
+            "technique": TECH + "exact rational identity testing (Schwartz-Zippel over Q, with exact radical arithmetic) of merge laws",
+            "explanation": "Decides for Mean, Variance, Skewness, Kurtosis, Moments4 and define_moments! at N in {4,5,6,8,10}: len additivity on every path; merging a fresh empty estimator on either side is an exact identity of every reported statistic; over the reals merge(S, singleton(x)) = add(S, x), merge commutes and associates, so every merge tree over contiguous chunks equals the single pass (induction on the right operand). Not decided: rounding of a deep merge tree.",
+            "level_text": "Real-arithmetic equivalence of every merge tree with the single pass, plus exact (bit-level) identity for empty operands and exact lengths, for abstract states and data; the rounding envelope is open.",
+            "level_note": TB + "laws are identities of rational functions decided at 4 random rational points with fixed seeds (error probability negligible, deterministic)."},
+    "C03": {"run": c03, "level": "other", "design_ref": "DESIGN.md 5 C03",
+            "technique": TECH + "dimension/sign/shift domains + identity testing against the definitions m3/m2^1.5 and m4/m2^2-3 on abstract streams",
+            "explanation": "Decides for Skewness/Kurtosis: R-COUNT, R-DIM (sum_3: X^3, sum_4: X^4, results dimensionless), R-SIGN, R-DIV, R-SHIFT, the add/merge laws L1-L4, and that skewness(), kurtosis(), mean and variances equal their definitions over the reals on every abstract stream of length 2 and 4 (2..6 thorough). Not decided: the envelope.",
+            "level_text": "As C01 for the third/fourth-order estimators; definitions are the ones quoted in the property.", "level_note": TB + "non-zero spread (property quantifier) for the normalisation."},
+    "C04": {"run": c04, "level": "other", "design_ref": "DESIGN.md 5 C04",
+            "technique": TECH + "concrete evaluation of the binomial iterator, per-element dimension analysis, identity testing of central/standardized moments against their definitions for every p <= N",
+            "explanation": "Decides for define_moments! at N in {4,5,6,10} (+8 thorough), both cfg arms: IterBinomial yields Pascal's triangle without overflow for every order <= N (R-BINOM); m[j] has dimension X^(j+2) in add and merge (R-DIM); R-COUNT, R-SIGN (m[0]), R-DIV, R-SHIFT; L1-L4; central_moment(p) and standardized_moment(p) equal their definitions over the reals for every p <= N on abstract streams of length 2 and N+1. Not decided: the envelope; N outside the instantiated set.",
+            "level_text": "Macro-generated code is analysed after expansion at the parameters the property names; real-arithmetic correctness of every order on short abstract streams plus merge laws.", "level_note": TB + "the harness crate /verif/harness instantiates the macro (no logic of its own)."},
+    "C05": {"run": c05, "level": "other", "design_ref": "DESIGN.md 5 C05",
+            "technique": TECH + "order-type enumeration of all abstract paths of Quantile::add compared with a transcription of the P-square step (translation validation against the algorithm quoted by the property)",
+            "explanation": "Decides: new(p) sets desired positions/increments to the paper's formulas; after five observations heights are the sorted five and positions 1..5; for EVERY abstract path of add() on a state with >= 5 observations (about 4700 order/branch cases: cell search with ties, extreme capture, position increments, guards, parabolic accepted only strictly between neighbours else linear) the final markers equal the specified step: integers exactly, heights as rational functions. Not decided: bit-level agreement with a reference execution; that the estimate tracks the quantile.",
+            "level_text": "Every path of the implementation's step agrees with the algorithm's step for all abstract states (heights sorted, positions arbitrary) and observations; this found the new-minimum defect (fixed).", "level_note": TB + "the specification step in analysis/quantile_rules.py is transcribed from Jain & Chlamtac as quoted in C05; float_ord::sort permutes into non-decreasing order."},
+    "C06": {"run": c06, "level": "other", "design_ref": "DESIGN.md 5 C06",
+            "technique": TECH + "order-type enumeration under the documented contract of binary_search_by; panic census; monotonicity-by-construction of with_const_width",
+            "explanation": "Decides for define_histogram! at LEN in {1,2,3,4,10} (+100 thorough) and the const-generic sibling: find/add have no reachable panic (NaN included); the result is Ok exactly when range_min <= x < range_max and then the unique half-open bin; add changes exactly that count by one and nothing on the error path; edges are never modified; both constructors establish sorted edges (from_ranges table; with_const_width non-decreasing by construction). Not decided: which of several equal edges std's binary search returns (unspecified by its contract).",
+            "level_text": "All order types of (x, edges) including NaN, ties, infinities for strictly increasing edges; found find(NaN) panicking (fixed).", "level_note": TB + "documented contract of [T]::binary_search_by."},
+    "C07": {"run": c07, "level": "other", "design_ref": "DESIGN.md 5 C07",
+            "technique": TECH + "provenance (taint) of the returned height through float_ord::sort + grid evaluation of the index logic with abstract observations",
+            "explanation": "Decides for 1..4 stored observations in arbitrary arrival order: every returned height derives from the sorted copy only (R-TAINT); no index panic for p in [0,1]; for a grid of p (k/8 quick; k/16, k/3 and near-boundary values thorough) the selected order statistic (or mean of two) is the one C07 defines, with the observations abstract. Not decided: p between grid points (the index is piecewise constant in p; boundaries k/n for n in {1,2,4} are on the grid); rounding of n*p.",
+            "level_text": "Order-independence for all p and observations; exact selection on a grid of p. Found the unsorted read (fixed).", "level_note": TB + "float_ord::sort summary."},
+    "C08": {"run": c08, "level": "other", "design_ref": "DESIGN.md 5 C08",
+            "technique": TECH + "dimension analysis with a weight axis, zero-weight identity, convexity, identity testing against sum(wx)/sum(w) etc.",
+            "explanation": "Decides: weight homogeneity (R-DIM with W axis), R-DIV with weights >= 0 (not > 0), a zero-weight observation leaves the weighted statistics exactly unchanged now and after later samples, from any state including empty (R-ZEROW), convex mean update/merge (R-CONVEX), R-SIGN, R-SHIFT, R-COUNT, merge identity, ingestion paths, L1-L4 and the formulas of C08 on abstract streams. Not decided: the envelopes.",
+            "level_text": "Structure + real-arithmetic formulas; found the zero-first-weight NaN (fixed).", "level_note": TB + "weights >= 0."},
+    "C09": {"run": c09, "level": "other", "design_ref": "DESIGN.md 5 C09",
+            "technique": TECH + "two-axis dimension analysis, per-axis and joint shift degree, identity testing against the definitions and swap symmetry",
+            "explanation": "Decides for Covariance: R-COUNT, R-DIM on (X, Y), R-SIGN (both sums of squares), R-DIV, R-SHIFT in x, in y and jointly (no product of two offset-carrying quantities), L1-L4, every accessor equals its definition over the reals on abstract streams, x<->y swap symmetry, merge identity, ingestion. Not decided: the envelope; |pearson| <= 1.",
+            "level_text": "As C01 for the bivariate estimator.", "level_note": TB},
+    "C10": {"run": c10, "level": "other", "design_ref": "DESIGN.md 5 C10",
+            "technique": TECH + "identity testing of accessor relations and of the textbook formulas quoted by the property (exact radical arithmetic), dimension analysis, small-n division census",
+            "explanation": "Decides: sample_variance*(n-1) = population_variance*n, variance_of_mean*n = sample_variance, error^2 = variance_of_mean for every type; for define_moments! types sample_skewness = sqrt(n(n-1))/(n-2)*m3/m2^1.5 and sample_excess_kurtosis = (n-1)/((n-2)(n-3))*((n+1)(m4/m2^2-3)+6) as identities between the type's own accessors on abstract states and against the definitions on abstract streams; dimensionless results; defined arithmetic at n = 2, 3; sentinels below the minimum sizes. Not decided: the envelope.",
+            "level_text": "Formulas written in the property compared with the code over the reals; found both sample statistics wrong (fixed).", "level_note": TB},
+    "C11": {"run": c11, "level": "proof", "design_ref": "DESIGN.md 5 C11",
+            "technique": TECH + "exact (node-identical) state comparison on both empty-side cases, count arithmetic on affine integers, frame facts from types",
+            "explanation": "Proves for all Merge impls (14 types + histograms at several LEN): merging a freshly constructed empty estimator into a leaves every reported statistic bit-for-bit unchanged and merging a into empty yields a's statistics (state leaves identical after IEEE-exact identities); merged length = len(a)+len(b) on every path; is_empty() iff len() == 0; merge never writes its argument; Clone is derived and field-wise exact; no interior mutability, no unsafe, no statics.",
+            "level_text": "All obligations discharged for abstract reachable states; exactness is syntactic identity of residuals after the IEEE-exact identities of DESIGN 2.3.", "level_note": TB + "reachable states of Min/Max are not NaN; states are finite (C01 domain)."},
+    "C12": {"run": c12, "level": "other", "design_ref": "DESIGN.md 5 C12",
+            "technique": TECH + "enumeration of all input lists of length 0..LEN+3 as abstract items with NaN/order cases against the C12 table",
+            "explanation": "Decides for LEN in {1,2,3,4} (+10 thorough) and both siblings: for every abstract input prefix (each item NaN / out of order / fine, list shorter or longer) the outcome (Ok with exactly the first LEN+1 values and zero counts, or the error of the first offending position, NaN before NotSorted, NotEnoughRanges) is the one C12 states; extra values are ignored even if invalid. with_const_width: first edge exactly start, edges = start + i(end-start)/LEN over the reals, non-decreasing by construction. Not decided: the few-ulps claim.",
+            "level_text": "Exhaustive over the order/NaN types of the inputs (not over values).", "level_note": TB},
+    "C13": {"run": c13, "level": "proof", "design_ref": "DESIGN.md 5 C13",
+            "technique": TECH + "effect summaries and write-before-panic analysis over all edge-(in)equality cases",
+            "explanation": "Proves: merge and += return only when every edge pair compares equal and then counts are the bin-wise sums with edges and argument untouched; on a mismatch they panic before any write (one panicking path per edge position); merge and += agree; *= scales every count, reset zeroes counts and keeps edges; iteration yields exactly LEN items ((edge j, edge j+1), count j); widths, centers, normalized_bins, variances equal the formulas of C13 over the reals; variance(i) is computed by exactly the same arithmetic as variances()[i]. Not decided: u64 overflow of counts.",
+            "level_text": "All obligations discharged for LEN in {1,2,3,4,10} and the const-generic sibling.", "level_note": TB},
+    "C14": {"run": c14, "level": "proof", "design_ref": "DESIGN.md 5 C14",
+            "technique": TECH + "NaN/order case enumeration of add and merge against the fold specification",
+            "explanation": "Proves: new() holds the fold's neutral element; after add(v) / merge(other) the state is, on every NaN/order case, the extreme of the previous state and v ignoring NaN; from_value, min/max, estimate are exact copies; merge with empty is an identity; Default = new; ingestion = add loop. Order/chunking independence follows (selection is commutative, associative, idempotent).",
+            "level_text": "All cases of (state, value) including NaN and infinities.", "level_note": TB + "IEEE minNum/maxNum semantics of f64::min/max; total orders (FloatOrd, total_cmp) are modelled with unknown NaN/zero signs."},
+    "C15": {"run": c15, "level": "other", "design_ref": "DESIGN.md 5 C15",
+            "technique": TECH + "path conditions of the constructor; count discipline; the P-square step comparison of C05",
+            "explanation": "Decides: every normal return of new(p) implies 0 <= p <= 1 by a release assertion and new never panics inside the range; the count increases by exactly one on every add path (first five and later); is_empty iff len()==0; p() reads a slot that new sets to p and add never writes; extreme markers capture running min/max and interior heights are accepted only strictly between neighbours (full step comparison); NaN only for the empty estimator (sentinel). Not decided: min <= quantile <= max and height monotonicity as numeric invariants.",
+            "level_text": "Bookkeeping clauses decided for all paths; range claims rest on the decided acceptance logic but are not proved numerically.", "level_note": TB},
+    "C16": {"run": c16, "level": "proof", "design_ref": "DESIGN.md 5 C16, Appendix B.1",
+            "technique": TECH + "evaluation of every accessor in the constructed states n=0, n=1, constant stream (induction step proved), n=2, n=3 against the sentinel table; panic census",
+            "explanation": "Proves the sentinel table (about 240 cells over 14 types incl. define_moments! at several N): NaN/0/+-inf/1/x as documented for n = 0, 1, 2, 3 and for constant streams of any length (the constant-stream state is shown to be a fixed point of add(x) up to the count); no reachable release-mode panic in any cell except the documented zero-variance assertion; Default = new; states reached through merges with empty estimators are the add-only states.",
+            "level_text": "All cells discharged; constant streams by induction in the exact-identity domain.", "level_note": TB + "finite inputs (x - x = 0, 0 * x = 0)."},
+    "C17": {"run": c17, "level": "other", "design_ref": "DESIGN.md 5 C17",
+            "technique": TECH + "sign domain (sound for IEEE), convexity via polynomial positivity, shift degree",
+            "explanation": "Decides: every write to a sum of squares in add and merge adds a provably non-negative term, so all variances are >= 0 and error() is real (sound for floats, no restriction on kappa); mean updates and merges are convex combinations (coefficients are ratios of polynomials with non-negative coefficients, summing to 1); bin variance lies in [0, count]. Not decided: effective_len in [1, len]; total/4; rounding slack.",
+            "level_text": "Sign and convexity clauses decided for all inputs.", "level_note": TB + "weights >= 0."},
+    "C18": {"run": c18, "level": "other", "design_ref": "DESIGN.md 5 C18",
+            "technique": "static analysis: structural query over the type-checked program and the expanded AST (derives, field attributes, serialize_field calls, field types, statics)",
+            "explanation": "Decides under the serde feature for 12 in-crate state structs and 11 harness instantiations: Serialize and Deserialize are derived; every field is written under its own name; no serde attribute other than BigArray on arrays (read from the expanded AST); fields are plain data or other covered state structs; no statics, no interior mutability, no unsafe: the serialised form holds every bit of state the methods read. Not decided: losslessness of the format and of serde_derive/BigArray (assumption of the property).",
+            "level_text": "State-completeness of the serialised form; the round trip itself is trusted to serde.", "level_note": "Trusted: rustc front end; serde_derive; serde-big-array."},
+    "C19": {"run": c19, "level": "other", "design_ref": "DESIGN.md 5 C19",
+            "technique": TECH + "inspection of the closures handed to rayon fold/reduce (evaluated abstractly) + merge laws and identity",
+            "explanation": "Decides for 18+ from_par_iter impls (f64 and &f64; in-crate and macro instantiations): the pipeline is into_par_iter().fold(new, add).reduce(new, merge) with fold identity = new(), fold op = exactly one add(item), reduce identity = new(), reduce op = a.merge(&b); a; together with exact empty identity, exact length additivity and the real-arithmetic merge laws (any tree = single pass) and Min/Max exactness. Not decided: the envelope under re-association; rayon itself.",
+            "level_text": "The schedule only chooses a merge tree over contiguous chunks with identities inserted; every such tree is covered by the decided laws.", "level_note": TB + "rayon's documented fold/reduce contract."},
+    "C20": {"run": c20, "level": "proof", "design_ref": "DESIGN.md 5 C20",
+            "technique": TECH + "exact state comparison of every ingestion impl with new()+add(item)* on abstract inputs; forwarding checks",
+            "explanation": "Proves for 40+ FromIterator/Extend impls (value, reference, pair), all Estimate impls and the harness concatenate! shapes: the result state is node-identical to add() in a loop for 0..2 (3 thorough) abstract items and the input iterator is exhausted; estimate() is exactly the headline accessor; concatenate! builds fields with their defaults, forwards x once to every field, and each statistic is exactly the underlying accessor; Default = new.",
+            "level_text": "Identical effect summaries on abstract data imply bit-identical results.", "level_note": TB + "determinism of IEEE arithmetic; loops are item-uniform (checked up to 2-3 items)."},
 }
